@@ -401,8 +401,9 @@ class Exec:
         return g_and(*gs)
 
     def _feq_index(self, a, b):
-        # index equality on a float column compares bit patterns through the typed order: lo <= v <= hi
-        return g_and(sym.cmp_le(b, a, "f"), sym.cmp_le(a, b, "f"))
+        # an equality bound on a float column is a bit-pattern lookup in the interpreter (observed on the real binary:
+        # an index search for -0.0 does not return the tuple holding 0.0, and both are distinct tuples of a relation)
+        return self.uni.eq(a, b)
 
     def op(self, o, env, g):
         """execute operation o under guard g; returns the guard under which a BREAK fired"""
